@@ -110,6 +110,15 @@ impl ReplicaProp {
                 let snap = sum_snapshot(&mut s.w, &s.rig.snapshot());
                 (op, json!({"class":"restarted","snap":snap}))
             }
+            "prune" => {
+                s.rig.engine.prune_all();
+                rt.block_on(async {
+                    for _ in 0..24 {
+                        tokio::task::yield_now().await;
+                    }
+                });
+                (op, json!({"class":"pruned"}))
+            }
             "propose" => {
                 // the justification of the last notification is tracked by the caller through "just"
                 op["env"] = env;
@@ -537,12 +546,14 @@ impl ReplicaProp {
                             json!({"op":"msg","from":from,"sig_ok":true,"msg":{"timeout": ATVote{view: aview(view), hv: None, hq: None}}})
                         }
                     }
-                    _ if roll < 10 => json!({"op":"tick","crash":crash}),
+                    _ if roll < 9 => json!({"op":"tick","crash":crash}),
+                    _ if roll < 10 => json!({"op":"prune"}),
                     _ if roll < 14 => json!({"op":"restart"}),
                     _ if roll < 34 => {
                         // proposal: right / wrong leader, current / next / stale / future view, each payload shape
                         let view = g.near_view(cur).max(1);
-                        let back = g.rng.gen_range(0..2);
+                        // mostly the next block; sometimes a much older one (already pruned from the store)
+                        let back = if g.rng.gen_bool(0.12) { g.rng.gen_range(0..=base_n) } else { g.rng.gen_range(0..2) };
                         let just = g.just_for_view(view, base_n.saturating_sub(back));
                         let from = if g.rng.gen_bool(0.85) { g.leader(view) } else { g.rng.gen_range(0..n + 2) };
                         let implied = spec_implied(&weights, first, &just);
